@@ -3,7 +3,7 @@
    observer. *)
 From Coq Require Import List Arith Bool Lia.
 From MV Require Import Lib.Rigid Lib.ListIdx Model.Level2Model Model.Level2Move
-  Proofs.Level2A Proofs.Level2B Proofs.Level2C Proofs.Level2D Proofs.Level2E.
+  Gen.GenLevel1 Proofs.Level2A Proofs.Level2B Proofs.Level2C Proofs.Level2D Proofs.Level2E.
 Import ListNotations.
 
 Section Covariance.
@@ -29,6 +29,11 @@ Proof. rewrite ginv_mul, act_mul, act_inv_l. reflexivity. Qed.
 
 (* getBH_level1: observer into the source frame, field back into the global frame *)
 Theorem level1_frame k p r o pr : level1 P F k p r o pr = act r (F k pr (act (ginv r) (vsub o p))).
+Proof. reflexivity. Qed.
+
+(* getBH_level1 as TRANSLATED from /repo on this run (Gen/GenLevel1.v) is the model's row function: the field
+   of EVERY kind (B, H, J, M are all just `key`s of F here) is rotated back into the global frame, for every row *)
+Theorem gen_level1_is_model k p r o pr : gen_level1 P F k p r o pr = level1 P F k p r o pr.
 Proof. reflexivity. Qed.
 
 Theorem level1_covariant g t k p r o pr :
